@@ -361,6 +361,8 @@ LAY_THEOREMS = {'lay_complement_eq', 'lay_vee_eq', 'lay_dual_eq', 'lay_involutio
 
 NUMBA_THEOREMS = {'nb_add_eq', 'nb_sub_eq', 'nb_mul_eq', 'nb_xor_eq', 'nb_or_eq', 'nb_invert_eq', 'nb_neg_eq', 'nb_pos_eq'}
 
+SERIES_THEOREMS = {'series_sin_eq', 'series_sinh_eq', 'series_cos_eq', 'series_cosh_eq'}
+
 TRANSLATORS = [   # (script, theorems it generates (None = everything else), modules its output imports)
     ('py2lean.py', None, ['Model', 'Proofs.Rev', 'Proofs.Invol']),
     ('mv2lean.py', MV_THEOREMS, ['Proofs.Conf2', 'Proofs.CgaObj', 'Proofs.Classify']),
@@ -370,6 +372,7 @@ TRANSLATORS = [   # (script, theorems it generates (None = everything else), mod
     ('kernels2lean.py', KERN_THEOREMS, ['Model']),
     ('layout2lean.py', LAY_THEOREMS, ['Model']),
     ('numba2lean.py', NUMBA_THEOREMS, ['Model']),
+    ('series2lean.py', SERIES_THEOREMS, ['Model']),
 ]
 
 
